@@ -89,8 +89,13 @@ func extractNumberPart(formatStr string) string {
 
 func FormatNumber(qty decimal.Decimal, format NumberFormat) string {
 	var str string
+	places := int32(format.DecimalPlaces)
 	if format.HasDecimal {
-		str = qty.StringFixed(int32(format.DecimalPlaces))
+		// the display format only pads with zeros: decimals the quantity carries are not rounded away
+		if carried := -qty.Exponent(); carried > places {
+			places = carried
+		}
+		str = qty.StringFixed(places)
 	} else {
 		str = qty.Round(0).String()
 	}
@@ -126,7 +131,7 @@ func FormatNumber(qty decimal.Decimal, format NumberFormat) string {
 	}
 	result.WriteString(intPart)
 
-	if format.HasDecimal && format.DecimalPlaces > 0 {
+	if format.HasDecimal && places > 0 {
 		result.WriteRune(format.DecimalMark)
 		result.WriteString(decPart)
 	}
